@@ -19,7 +19,7 @@ struct SymbolVal {
 type Name = String;
 
 #[derive(Debug, Clone)]
-pub(super) struct SymbolTab(HashMap<Name, SymbolVal>);
+pub(super) struct SymbolTab(HashMap<Name, Vec<SymbolVal>>);
 
 impl SymbolTab {
     pub(super) fn new<'data, 'file, OBJ>(object_file: &'data OBJ) -> Option<Self>
@@ -28,22 +28,18 @@ impl SymbolTab {
         OBJ: Object<'data, 'file>,
     {
         object_file.symbol_table().as_ref().map(|sym_table| {
-            SymbolTab(
-                sym_table
-                    .symbols()
-                    .map(|symbol| {
-                        let name = symbol.name().unwrap_or_default();
-                        let name = rustc_demangle::demangle(name).to_string();
-                        (
-                            name,
-                            SymbolVal {
-                                kind: symbol.kind(),
-                                addr: symbol.address().into(),
-                            },
-                        )
-                    })
-                    .collect::<HashMap<_, _>>(),
-            )
+            // several symbols of one object may share a name (local symbols of different
+            // compilation units), keep all of them
+            let mut table: HashMap<Name, Vec<SymbolVal>> = HashMap::new();
+            for symbol in sym_table.symbols() {
+                let name = symbol.name().unwrap_or_default();
+                let name = rustc_demangle::demangle(name).to_string();
+                table.entry(name).or_default().push(SymbolVal {
+                    kind: symbol.kind(),
+                    addr: symbol.address().into(),
+                });
+            }
+            SymbolTab(table)
         })
     }
 
@@ -52,13 +48,12 @@ impl SymbolTab {
             .0
             .keys()
             .filter(|key| regex.find(key.as_str()).is_some());
-        keys.map(|k| {
-            let s = &self.0[k];
-            Symbol {
+        keys.flat_map(|k| {
+            self.0[k].iter().map(move |s| Symbol {
                 name: k.as_str(),
                 kind: s.kind,
                 addr: s.addr,
-            }
+            })
         })
         .collect()
     }
